@@ -75,6 +75,11 @@ func (db *DB) put(mode storage.ModePut, rootAddr boson.Address, chs ...boson.Chu
 		for _, ch := range chs {
 			db.dirtyAddresses = append(db.dirtyAddresses, ch.Address())
 		}
+		// garbage collection works on whole files: a chunk put under a
+		// file context touches that file's gc entry
+		if !rootAddr.IsZero() {
+			db.dirtyAddresses = append(db.dirtyAddresses, rootAddr)
+		}
 	}
 
 	batch := db.shed.NewBatch()
